@@ -47,7 +47,7 @@ pub fn job_c08(out_dir: &str, tier: &str, seed: u64) {
     let strs = strings(&mut rng, quick);
     let mut n = 0usize;
     let mut rejected = 0usize;
-    let per = if quick { 5 } else { 14 };
+    let per = if quick { 8 } else { 14 };
     for (si, s) in strs.iter().enumerate() {
         for k in 0..per {
             let base = &BASES[(si + k) % BASES.len()];
